@@ -14,11 +14,14 @@ CONSTANTS
   LatchError = TRUE
   CountAccepted = TRUE
   KeepFirstError = FALSE
-  Modes = {"never", "whole", "prefix"}
+  LatchOn = "err"
+  Modes = {"never", "whole", "prefix", "edge"}
   Pieces = {0, 1, 2, 7, 64}
   GivenFile = "chunks.ndjson"
   MaxCalls = 2
   LaterModes = {"never"}
   FreshPerCall = TRUE
+  ShareChoices = {FALSE}
+  PerWriterWrapper = FALSE
 INVARIANTS TypeOK CountExact NoWriteAfterFailure PrefixDelivered FirstError NoFailEqualsString FailsAtCapacity StringNeverPanics CallStartsFresh HealthyAfterFailure EmitVector
 CHECK_DEADLOCK FALSE
